@@ -5,7 +5,7 @@ from vlib import txgen
 ID = "C06"
 RULE = ("op tx.sign <json> <key> -> signing digest, signed bytes, (r, s, parity): field values boundary-biased in [0,2^256), calldata lengths 0..120 exhaustively "
         "(thorough 0..1100) + 255/256/65535/65536, recipients present/absent/null, access lists 0..4 entries x 0..4 slots plus shapes pushing list payloads across 55/56 and 255/256, "
-        "all three kinds, chain ids 0,1,2^64-1,large, both parities (counted); op tx.encode with chosen signatures whose r / s have every byte width 1..32; non-trivial = distinct document; "
+        "every subset of {gasPrice, maxPriorityFeePerGas, maxFeePerGas, accessList} x chain id present/absent (kind selection and refusals), all three kinds, chain ids 0,1,2^64-1,large, both parities (counted); op tx.encode with chosen signatures whose r / s have every byte width 1..32; non-trivial = distinct document; "
         "judge = independent strict decoder (Spec.Tx.decode on Spec.Rlp.decodeAll): every decoded field equals the document, v/yParity as integers, "
         "signature verifies and recovers to the key over keccak256 of the re-encoded unsigned payload")
 EXHAUSTIVE_SWEEPS = {"quick": ["calldata lengths 0..120"], "thorough": ["calldata lengths 0..1100"]}
@@ -43,6 +43,9 @@ def gen(rng, tier):
             for _ in range(4):
                 j, _ = txgen.rand_tx(rng, kind=kind, chain=chain)
                 cases.append(Case("tx.sign %s %s" % (hx(j), key()), tags=("chain-ids",)))
+    # which kind a document is: every subset of the pricing / access-list fields, with and without chain id
+    for j, sub, wc in txgen.field_mixes(rng):
+        cases.append(Case("tx.sign %s %s" % (hx(j), key()), tags=("field-mix", "fields:" + sub)))
     # chosen signatures: every byte width of r and s (leading zero bytes must be stripped), both parities
     for kind in ("legacy", "eip2930", "eip1559"):
         for w in range(1, 33):
